@@ -480,6 +480,17 @@ def r21_map_index(body, log):
     return body
 
 
+def r13e_entry_or_insert(body, log):
+    """R13e: `*M.entry(K).or_insert(D) += E;` -> read-or-default, then insert: the definition of the entry API for a
+    Copy value (`K` is a plain identifier, evaluated twice)."""
+    pat = re.compile(r'(?m)^([ \t]*)\*(' + PATH + r')\.entry\((\w+)\)\.or_insert\(([^()]+)\) \+= ([^;\n]+);')
+    n = len(pat.findall(body))
+    if n:
+        body = pat.sub(r'\1let __e = match \2.get(&\3) { Some(v) => *v, None => \4 };\n\1\2.insert(\3, __e + \5);', body)
+        log.append(f"R13e `*m.entry(k).or_insert(d) += e;` -> `let __e = match m.get(&k) {{ Some(v) => *v, None => d }}; m.insert(k, __e + e);` ({n}x)")
+    return body
+
+
 def r18c_index_compound(body, log):
     """R18c: `v[i] OP= x;` -> `v.set(i, v[i] OP (x));` (the index expression is pure: path / arithmetic only)."""
     pat = re.compile(r'(?m)^([ \t]*)(' + PATH + r')\[([\w\s+\-*/%()]+)\] (\||&|\^|\+|-)= ([^;\n]+);')
@@ -739,6 +750,8 @@ def extract_fn(repo, fnspec):
         body = r18c_index_compound(body, log)
     if 'R21' in rules:
         body = r21_map_index(body, log)
+    if 'R13e' in rules:
+        body = r13e_entry_or_insert(body, log)
     for d in fnspec.get('directives', []):
         k = d['kind']
         if k == 'opaque':
